@@ -1362,6 +1362,10 @@ def check_odf_length():
                     if not isinstance(got, int) or abs(got - want) > Fr(1, 2) + want / 10**9:
                         return {"target": how, "aspect": "pixel-size", "inputs": {"length": s}, "expected": f"{float(want):.3f} px rounded ({unit}: {float(k):.4f} px per unit at 96 dpi)",
                                 "observed": repr(got)}
+    for s in (None, "", " ", "cm", "abc"):       # nothing stored / no numeral: no length
+        got = f(s) if f else None
+        if got is not None:
+            return {"target": f"_odf_length_to_px({s!r})", "aspect": "pixel-size", "inputs": {"length": repr(s)}, "expected": "None (no length)", "observed": repr(got)}
     for s in ("3em", "50%", "2ex", "1furlong"):
         got = via_metadata(s)[0]
         if got is not None:
